@@ -127,7 +127,7 @@ pub fn mask(w: u32) -> u128 {
 /// A w-bit pattern biased towards the shapes that expose masking, clearing and sign errors.
 pub fn biased_bits(rng: &mut Rng, w: u32) -> u128 {
     let m = mask(w);
-    let v = match rng.below(12) {
+    let v = match rng.below(16) {
         0 => 0,
         1 => m,
         2 => 1u128 << rng.below(w as u64),                     // one-hot
@@ -138,9 +138,34 @@ pub fn biased_bits(rng: &mut Rng, w: u32) -> u128 {
         7 => m ^ (1u128 << rng.below(w as u64)),               // one-cold
         8 => rng.next_u128() & rng.next_u128() & rng.next_u128(), // sparse
         9 => rng.next_u128() | rng.next_u128() | rng.next_u128(), // dense
+        // values around an internal power-of-two boundary (where a fast path for "fits in k
+        // bits", a carry or a sub-width sign bit would sit): 2^k - 1, 2^k, 2^k + 1, and the same
+        // counted down from the maximum
+        10 | 11 => {
+            let k = boundary_bit(rng, w);
+            let b = 1u128 << k;
+            match rng.below(5) {
+                0 => b.wrapping_sub(1),
+                1 => b,
+                2 => b.wrapping_add(1),
+                3 => m.wrapping_sub(b),
+                _ => m.wrapping_sub(b).wrapping_add(1),
+            }
+        }
+        12 => m.wrapping_sub(1),
         _ => rng.next_u128(),
     };
     v & m
+}
+
+/// a bit position inside a w-bit value, biased to the native-width boundaries 7/8, 15/16, 31/32, 63/64
+fn boundary_bit(rng: &mut Rng, w: u32) -> u32 {
+    let natives: Vec<u32> = [7u32, 8, 15, 16, 31, 32, 63, 64].iter().copied().filter(|&k| k < w).collect();
+    if !natives.is_empty() && rng.chance(1, 2) {
+        *rng.pick(&natives)
+    } else {
+        rng.below(w as u64) as u32
+    }
 }
 
 #[cfg(test)]
